@@ -2,7 +2,7 @@
 From Coq Require Import Strings.String.
 From Coq Require Import List ZArith NArith Bool Lia.
 From Coq Require Import Strings.Byte.
-From LLIR Require Import Lib.Bytes Gen.Enums Gen.Printers Model.GoEval.
+From LLIR Require Import Lib.Bytes Gen.Enums Model.EnumModel Gen.Printers Model.GoEval.
 From LLIR Require Import Proofs.EnumProofs Proofs.CallingConvProofs.
 Import ListNotations.
 Local Open Scope Z_scope.
@@ -12,7 +12,7 @@ Local Open Scope Z_scope.
    every declared value of every enumerated type prints to a keyword -- never the T(%d) fallback --
    that the parser-side converter maps back to the same value ... *)
 Theorem C18_every_keyword_round_trips : forall t, In t all_enums -> forall v, In v (e_values t) ->
-  exists s, to_string t v = Some s /\ from_string t s = Ok v.
+  exists s, to_string t v = Some s /\ from_string t s = EnumModel.Ok v.
 Proof. exact enum_roundtrip. Qed.
 
 (* ... and no two values of a type share a keyword *)
